@@ -68,7 +68,16 @@ class Check:
         self.findings = [f for f in load_known_findings() if f["property"] == pid]
 
     # -------------------------------------------------------------------------- building
+    MODE_FILES = {"lexmode": "m_lex", "pipemode": "m_pipe", "coremode": "m_core", "tymode": "m_ty", "impmode": "m_imports",
+                  "projmode": "m_proj", "rendermode": "m_render"}
+    MODE_FEATURE = {"lex": "m_lex", "pipe": "m_pipe", "multi": "m_pipe", "core": "m_core", "tysup": "m_ty", "tyunion": "m_ty", "tyclasses": "m_ty",
+                    "imports": "m_imports", "proj": "m_proj", "render": "m_render"}
+
     def build_harness(self):
+        """builds the harness against /repo's working tree.  When the sources of some modes no longer compile (an internal
+        API they call was changed), the harness is rebuilt without those modes: the checks that use them report the broken
+        correspondence when they ask for the mode, all other checks run as usual."""
+        self.missing_modes = {}
         lock_src = os.path.join(REPO, "Cargo.lock")
         rc, out = sh(["cargo", "build", "--offline", "--quiet"], cwd=HARNESS, timeout=1800)
         if rc != 0:
@@ -81,6 +90,21 @@ class Check:
                 rc, out = sh(["cargo", "build", "--offline", "--quiet"], cwd=HARNESS, timeout=1800)
             except OSError:
                 pass
+        if rc != 0:
+            bad = set()
+            for block in re.split(r"\n\s*\n", out):
+                if block.lstrip().startswith("error"):
+                    for m in re.finditer(r"--> src/(\w+)\.rs:", block):
+                        bad.add(m.group(1))
+            if bad and all(b in self.MODE_FILES for b in bad):
+                drop = {self.MODE_FILES[b] for b in bad}
+                keep = sorted(set(self.MODE_FILES.values()) - drop)
+                rc2, out2 = sh(["cargo", "build", "--offline", "--quiet", "--no-default-features", "--features", ",".join(keep)], cwd=HARNESS, timeout=1800)
+                if rc2 == 0:
+                    errs = "\n".join(b for b in re.split(r"\n\s*\n", out) if b.lstrip().startswith("error"))[-2500:]
+                    for f in drop:
+                        self.missing_modes[f] = errs
+                    return True
         if rc != 0:
             self.broken("harness-build", "cargo build of /verif/harness against /repo (feature verif) failed:\n" + out[-3000:])
             return False
@@ -206,6 +230,11 @@ class Check:
 
     def harness(self, mode, cases, parallel=None, **kw):
         """runs the implementation on the cases; heavy modes are spread over worker processes"""
+        feat = self.MODE_FEATURE.get(mode)
+        if feat in getattr(self, "missing_modes", {}):
+            self.broken("harness-build", "the harness mode `%s` no longer compiles against /repo (the internal API it calls changed); "
+                        "its correspondence cannot be run:\n%s" % (mode, self.missing_modes[feat]))
+            return {}
         if parallel is None:
             parallel = 16 if mode in ("pipe", "multi") and len(cases) > 8 else 1
         if parallel <= 1:
@@ -230,6 +259,11 @@ class Check:
             trig = f.get("trigger_regex")
             if trig and re.search(trig, case_text, re.S):
                 return f
+            pred = f.get("trigger_pred")
+            if pred:
+                import finding_preds
+                if finding_preds.PREDS[pred](case_text):
+                    return f
             if f.get("input") is not None and f["input"] == case_text:
                 return f
         return None
